@@ -178,6 +178,20 @@ CHECKS = {
               "weight-attribute list of the translator are trusted; it fails closed on unknown syntax. Recurrent wrapper layers do not build "
               "under the pinned Keras 3 (known finding): the cells are driven through their unbound call."),
         technique="model regenerated from source by a symbolic-execution translator + Coq decision procedure with soundness proof + differential correspondence"),
+    "C12": dict(
+        category="proof",
+        text=("Coq theorems (Properties/C12.v) over every layer list and every dictionary: layer names, count and order are preserved; a "
+              "layer whose lookup finds nothing (and every layer of an unknown class, and everything under an empty dictionary) is returned "
+              "unchanged; a selected layer becomes 'Q'+class with exactly the looked-up kernel/bias strings; biasless layers never get a bias "
+              "quantizer; a name entry takes precedence over the class entry; relu/tanh/sigmoid map to quantized_*(bits), other activations are "
+              "untouched. Correspondence: random sequential/branched Keras models x random dictionaries: the JSON that model_quantize hands to "
+              "the loader is compared layer by layer with the Coq function; connectivity, non-quantization hyper-parameters, output shapes, "
+              "transferred weights, and non-modification of the source model and of the caller's dictionary are checked on the real objects."),
+        design_ref="DESIGN.md section 5 C12, section 10",
+        note=(TB_COMMON + "Keras model (re)construction is runtime behaviour outside the model. Recurrent, Bidirectional, BatchNormalization and "
+              "folded layers are not generated (they do not build under the pinned Keras 3); SeparableConv and LeakyReLU conversions are "
+              "known findings."),
+        technique="Coq proof over an abstract-layer model of the rewriting + differential correspondence on generated Keras models"),
 }
 
 NOT_YET = "check not built yet in this development (design in DESIGN.md section 5); not a claim that proof is inapplicable"
